@@ -1294,6 +1294,12 @@ func (lhh *LightHouseHandler) coalesceAnswers(v cert.Version, c *cache, n *Nebul
 }
 
 func (lhh *LightHouseHandler) handleHostQueryReply(n *NebulaMeta, fromVpnAddrs []netip.Addr) {
+	if lhh.lh.amLighthouse {
+		// A lighthouse never queries (QueryServer is a no-op for it), so any reply is unsolicited. What a lighthouse
+		// holds for a host must come from that host's own tunnel, not from another lighthouse it has configured.
+		return
+	}
+
 	if !lhh.lh.IsAnyLighthouseAddr(fromVpnAddrs) {
 		return
 	}
